@@ -616,13 +616,13 @@ Proof.
   { intro ks'. destruct (index_delete_static ix ks') as [_ [_ [C [D _]]]].
     apply Hsub; auto; [|apply index_delete_wf; exact Hwf].
     intros ik Hik. rewrite index_delete_keys in Hik by exact Hwf. apply filter_In in Hik. tauto. }
-  unfold index_delete_range. destruct ks as [|k0 ks0]; [repeat split; assumption|].
-  destruct (_ && _); [apply Hdel|]. destruct (_ || _); [repeat split; assumption|].
+  assert (Hid : wf_dr ix) by (split; [exact Hwf|split; assumption]).
+  unfold index_delete_range. destruct ks as [|k0 ks0]; [exact Hid|].
+  destruct (_ && _); [apply Hdel|]. destruct (_ || _); [exact Hid|].
   destruct (dr_walk _ _ _ _ _ _ _) as [full upd].
   destruct (full_delete_keys ix full Hwf) as [Q1 [Q2 [Q3 [_ [_ [Q6 Q7]]]]]]. cbv zeta in *.
   apply Hsub; cbn [set_tombs ix_keys ix_mintime ix_maxtime]; auto.
-  - intros ik Hik. rewrite Q1 in Hik. apply filter_In in Hik. tauto.
-  - apply set_tombs_wf; exact Q3.
+  intros ik Hik. rewrite Q1 in Hik. apply filter_In in Hik. tauto.
 Qed.
 
 Lemma index_of_wf_dr all : ksorted all -> Forall wf_ents all -> wf_dr (index_of all).
